@@ -334,6 +334,15 @@ func TestVerifRecC03(t *testing.T) {
 			grp("sum", in, a)
 		}
 	}
+	// the receiver of Sum at EVERY position of a three-element list
+	for at := 0; at < 3; at++ {
+		a := g.point()
+		ps := []*EdwardsPoint{g.point(), g.point(), g.point()}
+		ps[at] = a
+		in := snap(ps...)
+		a.Sum(ps)
+		grp("sum", in, a)
+	}
 	aliased := func(kind string) {
 		switch kind {
 		case "mul":
